@@ -417,6 +417,18 @@ func runTrees(o *hlib.Out, r *hlib.Rand, cfg hlib.Config) {
 	o.Stat("testdata_files", nFiles)
 	o.Stat("formats_covered", len(seen))
 
+	// depth and width: generated chains of 1..80 (130, 260) nested compounds, compounds with 31..257 children,
+	// names of 31..257 characters (deep.go), and documents of real formats nested to a given depth
+	for _, tc := range append(deepCases(r.Fork(), cfg.Thorough()), deepDocs(cfg.Thorough())...) {
+		if runTree(o, r.Fork(), tc, 1<<20, "deep") {
+			o.Stat("deep_or_wide_generated_trees", 1)
+		} else {
+			// these inputs are made by the harness itself: a decode that gives no tree is a harness error
+			o.Case(fmt.Sprintf("tree %s %s x | -", tc.format, hlib.Hex(tc.input)), "evalerr no-tree")
+		}
+	}
+	defer func() { o.Stat("max_tree_depth", maxDepthSeen) }()
+
 	// the synthetic format: random programs
 	for i := 0; i < nSynth; i++ {
 		fr := r.Fork()
